@@ -73,12 +73,32 @@ impl Op {
     }
 }
 
-const SCRIPT_HEAD: &str = "set_at = |c, i, x|\n  try\n    c[i] = x\n    'u'\n  catch _\n    'E'\n\nexport run = |c|\n  r = []\n";
+const SCRIPT_HEAD: &str = "set_at = |c, i, x|\n  try\n    c[i] = x\n    'u'\n  catch _\n    'E'\n\n";
 
+/// `export run = |c|` applying the operations in order and returning the list of results. Long
+/// programs are cut into helper functions of at most 100 operations (the compiler limits a
+/// function body to 64 KiB of bytecode and 255 registers).
 fn script_of(ops: &[Op]) -> String {
     let mut s = String::from(SCRIPT_HEAD);
-    for o in ops {
-        s.push_str(&o.koto());
+    if ops.len() <= 100 {
+        s.push_str("export run = |c|\n  r = []\n");
+        for o in ops {
+            s.push_str(&o.koto());
+        }
+        s.push_str("  r\n");
+        return s;
+    }
+    let chunks: Vec<&[Op]> = ops.chunks(100).collect();
+    for (i, ch) in chunks.iter().enumerate() {
+        s.push_str(&format!("part{} = |c, r|\n", i));
+        for o in ch.iter() {
+            s.push_str(&o.koto());
+        }
+        s.push_str("  null\n\n");
+    }
+    s.push_str("export run = |c|\n  r = []\n");
+    for i in 0..chunks.len() {
+        s.push_str(&format!("  part{}(c, r)\n", i));
     }
     s.push_str("  r\n");
     s
